@@ -6,7 +6,7 @@ import vlib
 
 SPEC = "Layers"
 CHUNK_LINES = 100000
-INVS = "TypeOK InvDeliveries InvPrefixLaw InvFilterLaw InvRouterLaw InvFanoutLaw InvCompose InvHandleTargets InvUpdateOnce"
+INVS = "TypeOK InvDeliveries InvPrefixLaw InvFilterLaw InvRouterLaw InvFanoutLaw InvCompose InvBuilder InvHandleTargets InvUpdateOnce"
 # code points: a A b B . e-acute E-acute
 A, UA, B, UB, DOT, EAC, UEAC = 97, 65, 98, 66, 46, 233, 201
 
@@ -18,21 +18,24 @@ def _set(xs):
 def gen_cfg(name, export=False, **kw):
     base = dict(Mode="filter", Alpha=[A, UA, DOT], NameAlpha=[A, UA, DOT], MaxName=2, MaxPat=2, MaxPats=1, MaxRoutes=1,
                 MaxDepth=1, MaskSet=["c", "g", "h", "all"], KindSet=["c", "g", "h"], DfaSet=["TRUE"], PerOp="both",
-                MaxCalls=1, MaxUpdates=1)
+                MaxCalls=1, MaxUpdates=1, MaxHist=0, StaleCaseFlag=False, MaxBuilders=1, AllowOnto=False, BWide=False)
     base.update(kw)
+    inv = base.pop("INV", None)
     p = os.path.join(vlib.SPECS, SPEC, "gen_%s.cfg" % name)
     with open(p, "w") as f:
         f.write("SPECIFICATION %s\nCONSTANTS\n" % ("ExportSpec" if export else "Spec"))
         for k, v in base.items():
             if k == "DfaSet":
                 v = "{" + ", ".join(v) + "}"
+            elif isinstance(v, bool):
+                v = "TRUE" if v else "FALSE"
             elif isinstance(v, list):
                 v = _set(v)
             elif isinstance(v, str):
                 v = '"%s"' % v
             f.write(" %s = %s\n" % (k, v))
-        f.write(" Configs <- MCConfigs\n OpsOf <- MCOpsOf\n UpdatesOf <- MCUpdatesOf\n")
-        f.write("INVARIANTS %s\nCHECK_DEADLOCK FALSE\n" % ("Emit" if export else INVS))
+        f.write(" Configs <- MCConfigs\n OpsOf <- MCOpsOf\n UpdatesOf <- MCUpdatesOf\n BuilderCallsOf <- MCBuilderCalls\n")
+        f.write("INVARIANTS %s\nCHECK_DEADLOCK FALSE\n" % ("Emit" if export else (inv or INVS)))
     return os.path.basename(p)
 
 
@@ -48,6 +51,10 @@ def mc_scopes(thorough):
                          MaxName=3, KindSet=["c", "g"], MaxUpdates=0), ("DoUpdate",)),
         ("fanout", dict(Mode="fanout", NameAlpha=[A, B], MaxName=2, MaxCalls=2), ()),
         ("stack", dict(Mode="stack", MaxDepth=3, NameAlpha=[A, UB, DOT], MaxName=2, PerOp="alt"), ()),
+        # every history of <= 5 calls on one FilterLayer / PrefixLayer value (new, add_pattern, case_insensitive(b),
+        # use_dfa(b), layer() onto a fresh probe or onto an earlier product), then every name/case variant through all products
+        ("builder", dict(Mode="builder", MaxHist=5, AllowOnto=True, DfaSet=["TRUE", "FALSE"], NameAlpha=[A, UA], MaxName=2,
+                         KindSet=["c"], PerOp="alt", MaxUpdates=0), ("DoUpdate",)),
     ]
     if thorough:
         s += [
@@ -70,6 +77,10 @@ def mc_scopes(thorough):
             ("stack-names3", dict(Mode="stack", MaxDepth=3, NameAlpha=[A, UB, DOT], MaxName=3), ()),
             ("stack-depth4", dict(Mode="stack", MaxDepth=4, NameAlpha=[A, UB, DOT], MaxName=2, KindSet=["c", "g"],
                                   PerOp="alt"), ()),
+            ("builder-6", dict(Mode="builder", MaxHist=6, AllowOnto=True, DfaSet=["TRUE", "FALSE"], NameAlpha=[A, UA],
+                               MaxName=1, KindSet=["c"], PerOp="alt", MaxUpdates=0), ("DoUpdate",)),
+            ("builder-2wide", dict(Mode="builder", MaxHist=5, MaxBuilders=2, BWide=True, DfaSet=["FALSE"],
+                                   NameAlpha=[A, UB], MaxName=1, KindSet=["g"], PerOp="alt", MaxUpdates=0), ("DoUpdate",)),
         ]
     return s
 
@@ -88,6 +99,9 @@ def export_scopes(thorough):
                            MaxName=3, KindSet=["g", "h"], PerOp="alt")),
         ("x_fanout", dict(Mode="fanout", NameAlpha=[A, B], MaxName=2, PerOp="both")),
         ("x_stack", dict(Mode="stack", MaxDepth=3, NameAlpha=[A, UB, DOT], MaxName=2, KindSet=["c", "g"], PerOp="alt")),
+        # every builder history of <= 5 calls, executed on real FilterLayer / PrefixLayer values
+        ("x_builder", dict(Mode="builder", MaxHist=5, DfaSet=["FALSE"], NameAlpha=[A, UA], MaxName=2, KindSet=["c"],
+                           PerOp="alt")),
     ]
     if thorough:
         s += [
@@ -96,6 +110,8 @@ def export_scopes(thorough):
             ("x_router_t", dict(Mode="router", Alpha=[A], MaxPat=2, MaxRoutes=3, MaskSet=["c", "h", "all"], NameAlpha=[A, DOT],
                                 MaxName=3, PerOp="alt")),
             ("x_stack_t", dict(Mode="stack", MaxDepth=3, NameAlpha=[A, UB, DOT], MaxName=3, PerOp="alt")),
+            ("x_builder_t", dict(Mode="builder", MaxHist=5, AllowOnto=True, DfaSet=["TRUE", "FALSE"], NameAlpha=[A, UA],
+                                 MaxName=1, KindSet=["h"], PerOp="alt")),
         ]
     return s
 
@@ -155,14 +171,25 @@ def run(chk):
         "route masks are the four the router accepts (COUNTER, GAUGE, HISTOGRAM, ALL); add_route panics on any other mask",
         "Histogram::record_many(v, n) through a fanout is compared at sample level (n x record(v) per inner handle)",
         "single-threaded calls; recorder trees (no recorder shared between two branches)",
+        "re-usable builders are FilterLayer and PrefixLayer (layer(&self)); RouterBuilder::build, FanoutBuilder::add_recorder/"
+        "build and Stack::push consume self, so no call can follow the product (enforced by the compiler)",
     ]
     # 1. exhaustive model checking: mirror of the code == laws, for every configuration and operation of each scope
     for name, kw, exempt in mc_scopes(thorough):
         cfg = gen_cfg(name.replace("-", "_"), **kw)
         r = vlib.tlc_mc(SPEC, "MCLayers", cfg, workers=8, timeout=3000 if thorough else 900, tag=name)
-        if not chk.expect_mc_ok(r, "Layers/" + name, vacuity_exempt=set(exempt)):
+        exempt = set(exempt) | ({"DoConfigure", "Configure"} if kw["Mode"] == "builder" else {"DoBuild", "DoAssemble", "Assemble"})
+        if not chk.expect_mc_ok(r, "Layers/" + name, vacuity_exempt=exempt):
             return
         chk.log("TLC %s: %d distinct states (%d generated), depth %d, %.0fs" % (name, r["distinct"], r["generated"], r["depth"], r["wall"]))
+
+    # witness: a FilterLayer that keeps its compiled automaton across case_insensitive() must be rejected by the model
+    cfg = gen_cfg("builder_witness", Mode="builder", MaxHist=4, StaleCaseFlag=True, NameAlpha=[A, UA], MaxName=1, KindSet=["c"],
+                  PerOp="alt", MaxUpdates=0, INV="InvBuilder")
+    r = vlib.tlc_mc(SPEC, "MCLayers", cfg, workers=4, timeout=600, coverage=False, tag="builder_witness")
+    if r["invariant"] != "InvBuilder":
+        chk.tool_error("model no longer rejects a stale case flag in FilterLayer (witness lost)", r["out"][-2000:])
+    chk.notes["stale_case_witness"] = "StaleCaseFlag=TRUE violates InvBuilder (history: new, layer, case_insensitive, layer)"
 
     # 2. harness against /repo's working tree
     build(chk)
@@ -182,7 +209,7 @@ def run(chk):
             for p in ps:
                 f.write(json.dumps(p, separators=(",", ":")) + "\n")
             nprog += len(ps)
-            per_scope[name] = {"programs": len(ps), "ops": sum(len(p["ops"]) for p in ps)}
+            per_scope[name] = {"programs": len(ps), "ops": sum(len(p["ops"]) + len(p.get("hist", [])) for p in ps)}
             if name == "x_stack":
                 chk.cov["samples"].append({"source": "TLC-exported program (x_stack)", "cfg": ps[len(ps) // 2]["cfg"],
                                            "first_ops": ps[len(ps) // 2]["ops"][:3]})
@@ -216,8 +243,10 @@ def replay(chk, path):
     for line in open(path):
         e = json.loads(line)
         if e.get("ev") == "reset":
-            prog = {"cfg": e["cfg"], "ops": []}
+            prog = {"hist": [], "ops": []} if e["cfg"].get("t") == "none" else {"cfg": e["cfg"], "ops": []}
             progs.append(prog)
+        elif prog is not None and e.get("ev") == "build":
+            prog["hist"].append({k: v for k, v in e.items() if k != "ev"})
         elif prog is not None and e.get("ev") in ("describe", "register", "update", "panic"):
             if e["ev"] == "panic":
                 if isinstance(e.get("at"), dict):
